@@ -90,8 +90,10 @@ func zzWriteRevisionCounter(r *Replica, counter int64) error {
 }
 
 // (*Server).isExtentSupported probes FIEMAP on a temp file: environment, may fail
+var zzExtentsSupported bool // set by a harness whose file system is known to support FIEMAP
+
 func zzIsExtentSupported(s *Server) error {
-	if zzNondetBool("extents.unsupported") {
+	if !zzExtentsSupported && zzNondetBool("extents.unsupported") {
 		return zzErr("zz: underlying file system does not support extent mapping")
 	}
 	return nil
